@@ -16,7 +16,7 @@ Tolerance 1e-10 relative (float64 arithmetic, <= 400 unknowns, depth <= 4).
 import numpy as np
 
 from vf import lops
-from vf.common import Plan, crandn, held, violated, inconclusive, rng_for, nrm, pick
+from vf.common import structured, Plan, crandn, held, violated, inconclusive, rng_for, nrm, pick
 from vf import repo_tests
 from vf.oracles.algebra import Spec
 from vf.monitors import STATE
@@ -382,7 +382,8 @@ def run_one(case):
     try:
         worst = 0.0
         for k in range(2):
-            x = crandn(rng, ish, dt)
+            with structured((sum(case["rs"]) // 3) % 9 if sum(case["rs"]) % 2 else 0):
+                x = crandn(rng, ish, dt)
             if k == 1 and len(ish) >= 2:
                 x = np.asfortranarray(x)            # memory-layout variant
             STATE.peak = 0.0
